@@ -31,3 +31,49 @@ Theorem C14_concurrent_route_answers_are_correct : forall all d reqs sched i a s
   route_response_correct d s p acc egr a.
 Proof. exact concurrent_route_answers_are_correct. Qed.
 Print Assumptions C14_concurrent_route_answers_are_correct.
+
+
+(* tie to the source, the shared cache: the six methods of src/connection_cache.cpp (ScenarioConnectionCacheOne / All ::
+   get, set, clear) are read AS THEY ARE NOW by tools/gen_scenario.py as statement lists (gen/Scenario.v) - the lock
+   statement with its kind, the comparison / look-up, the copies, the writes, the returns - and run by the interpreter of
+   ScenCode.v, which gives a thread a STALE view `pre` of the members for everything it reads before it holds the lock.
+   Server.v's atomic cache_get / cache_set / cache_clear (the steps of tstep, on which the schedule theorems above rest) are
+   those methods, whatever `pre` is; and every method takes the lock - shared in get, exclusive in set and clear - before
+   it reads or writes a member *)
+Require TrV.ScenCode TrV.gen.Scenario.
+From TrV Require Proofs.ScenarioTie Proofs.CacheTie.
+Module SCN.
+  Import TrV.ScenCode TrV.Proofs.CacheTie.
+  Import ListNotations.
+  Theorem C14_cache_methods_are_code : forall pre c k v arg,
+    run_method (cc_get (gen_cache_code c)) pre (repr c) k arg = Some (lift (cache_get c k), repr c) /\
+    run_method (cc_set (gen_cache_code c)) pre (repr c) k (Some v) = Some (MVoid, repr (cache_set c k v)) /\
+    run_method (cc_clear (gen_cache_code c)) pre (repr c) k arg = Some (MVoid, repr (cache_clear c)).
+  Proof. exact cache_methods_are_code. Qed.
+  Print Assumptions C14_cache_methods_are_code.
+  Theorem C14_cache_lock_discipline :
+    forallb lock_first [GS.gen_cache_one_get; GS.gen_cache_one_set; GS.gen_cache_one_clear;
+                        GS.gen_cache_all_get; GS.gen_cache_all_set; GS.gen_cache_all_clear] = true /\
+    lock_discipline GS.gen_cache_one_get LkShared = true /\ lock_discipline GS.gen_cache_all_get LkShared = true /\
+    lock_discipline GS.gen_cache_one_set LkUnique = true /\ lock_discipline GS.gen_cache_all_set LkUnique = true /\
+    lock_discipline GS.gen_cache_one_clear LkUnique = true /\ lock_discipline GS.gen_cache_all_clear LkUnique = true /\
+    (* in get, the comparison / look-up and the copy handed out are behind the same, single lock statement *)
+    blk_touches stmt_touches (after_lock GS.gen_cache_one_get) = true /\
+    blk_touches stmt_touches (after_lock GS.gen_cache_all_get) = true /\
+    locks_in GS.gen_cache_one_get = 1%nat /\ locks_in GS.gen_cache_all_get = 1%nat /\
+    members_under_lock GS.gen_cache_one_get = true /\ members_under_lock GS.gen_cache_all_get = true.
+  Proof.
+    exact (conj lock_first_all (conj lock_discipline_one_get (conj lock_discipline_all_get (conj lock_discipline_one_set
+          (conj lock_discipline_all_set (conj lock_discipline_one_clear (conj lock_discipline_all_clear
+          get_compare_and_copy_under_one_lock))))))).
+  Qed.
+  Print Assumptions C14_cache_lock_discipline.
+  (* the thread protocol's two cache steps are the protocol of getConnectionsForScenario: look-up (+ construction), publication *)
+  Theorem C14_thread_steps_are_code : forall d c r s,
+    req_scenario r = Some (s_id s) -> find_scenario d (s_id s) = Some s -> reaches_filters r = true ->
+    tstep d c (TStart r) =
+      (match cache_get c (s_id s) with Some cs => THave r cs | None => TBuilt r (s_id s) (conn_set d s) end, c) /\
+    forall cs, tstep d c (TBuilt r (s_id s) cs) = (THave r cs, cache_set c (s_id s) cs).
+  Proof. exact TrV.Proofs.ScenarioTie.tstep_is_protocol. Qed.
+  Print Assumptions C14_thread_steps_are_code.
+End SCN.
